@@ -100,6 +100,10 @@ def gen_cases(tier, seed):
                     break
             n = int(rng.choice([300, 1000]))
             cases.append({"fam": fam, "gen": p, "n": n, "c": 2.0 if edge == "small" else 0.5, "start": "generating" if edge == "small" else "perturbed", "prelude": False, "sub": int(rng.integers(1 << 31)), "cost": n / 500})
+    # rounded data (ties): every third regular case of the families with positive support
+    for k, cse in enumerate(cases):
+        if k % 3 == 1 and R.SUPPORT[cse["fam"]] == "pos" and not cse.get("fixed") and cse["fam"] not in ("weibull",):
+            cse["ties"] = True
     # data that legitimately contain zeros and negative values: a negative location (Weibull with the location fixed,
     # as every shipped model does; normal, Gumbel, Rayleigh with the location free)
     nrng = np.random.default_rng([seed, 12, 4])
@@ -217,6 +221,13 @@ def run_case(case, ctx):
     with np.errstate(all="ignore"):
         x = np.asarray(R.icdf(fam, u, **gen), float)
     x = x[np.isfinite(x)]
+    if case.get("ties"):
+        # measurements rounded to a resolution: many repeated observations (every one of them counts in the likelihood)
+        res = 10.0 ** math.floor(math.log10(max(float(np.median(np.abs(x))), 1e-6)) - 0.5)
+        x = np.round(x / res) * res
+        if R.SUPPORT[fam] == "pos":
+            x = np.maximum(x, res)
+        ctx.cls("data", "rounded-with-ties")
     names = R.PARAMS[fam]
     if case["start"] == "default":
         start = None
